@@ -364,6 +364,11 @@ def all_obligations():
              what='retrieve(), run dump (' + nm + ' copy, extracted verbatim): a run is written only if it fits in the rest of the block, otherwise ERR_OVERFLOW with nothing written; '
                   'exactly run copies in place, nothing beyond the limit, frequency count updated (block stand-in of 6 entries: the section only compares and advances pointers)',
              functions=['retrieve (run dump)'], flags=['--unwind', '12', '--unwindset', 'h_run_dump.1:258', '--unwinding-assertions'], expect=['a run that does not fit', 'exactly run copies of the run byte'], replayable=True))
+    A(Ob(name='decode.fast_path_guard', props=['C08', 'C05'], kind='lemma', harness='h_decode.c', entry='h_fast_path_guard',
+         what='retrieve(): whenever its guard (extracted verbatim) selects the fast path, 50 applications of the real NEED_FAST()/DUMP(k) macros with any code lengths 1..20, from any number of buffered bits, '
+              'never read a word at or beyond `limit` (the buffer ends exactly there: an over-read is an out-of-bounds dereference)',
+         functions=['retrieve (fast-path guard)', 'NEED_FAST (macro)', 'DUMP (macro)'], flags=['--unwind', '52', '--unwinding-assertions'], expect=['fast path: a whole group of 50 codes'], replayable=True,
+         assumed=['loop skeleton of the fast path abstracted to its two input-touching statements; code lengths are 1..20 (decode.prefix_decode.*, make_tree)']))
     # ---------------- decode.c decode(): inverse BWT (C06 O6.4, C01 O1.2 decoder side)
     for n, tier in ((3, 'quick'), (4, 'thorough')):
         A(Ob(name=f'decode.ibwt.n{n}', props=['C06', 'C01', 'C05', 'C08'], kind='bounded', tier=tier, harness='h_emit.c', entry='h_decode_ibwt', extra_srcs=['src/crctab.c'], solver='cadical',
@@ -379,6 +384,11 @@ def all_obligations():
     A(Ob(name='encode.make_map_e', props=['C01', 'C02', 'C08'], kind='proof', harness='h_collect.c', entry='h_make_map_e', extra_srcs=['src/crctab.c'], defines={'CAP': '3', 'FILL': '0', 'RUNK': '0', 'NIN': '1'},
          what='make_map_e(): for every in-use map the used byte values are numbered 0,1,2.. in ascending order and their count is returned (ghost index over all 256 values)',
          functions=['make_map_e'], flags=['--unwind', '258', '--unwinding-assertions'], expect=['make_map_e: the number advances by one'], replayable=True))
+    A(Ob(name='decode.derandomise', props=['C06', 'C01'], kind='lemma', harness='h_emit.c', entry='h_derandomise', extra_srcs=['src/crctab.c'],
+         what='decode(), derandomisation section (extracted verbatim): over the first 138000 bytes of a block -- past the first wrap-around of the 512-entry table -- exactly the positions '
+              'prescribed by the format are toggled (a constant table walk: everything is concrete)',
+         functions=['decode (derandomisation section)', 'rand_table'], flags=['--unwind', '300', '--unwinding-assertions'], timeout=1200,
+         expect=['derandomisation: every position prescribed'], replayable=True, assumed=['section extraction (6 lines); block stand-in of 138000 entries']))
     # ---------------- encode.c do_mtf(): MTF + zero-run coder against the inverse of the format (C01 O1.3)
     for n, a, tier in ((5, 3, 'quick'), (6, 4, 'thorough'), (7, 3, 'thorough')):
         A(Ob(name=f'encode.do_mtf.n{n}a{a}', props=['C01', 'C02', 'C08'], kind='bounded', tier=tier, harness='h_do_mtf.c', entry='h_do_mtf', extra_srcs=['src/crctab.c'], solver='cadical',
